@@ -145,4 +145,46 @@ static inline uint32_t vf_choice(uint32_t k)
     return v;
 }
 
+/* ---- symbolic allocation-fault schedule (C19) ---------------------------
+ * With -DVF_FAULT_ALLOC every malloc/calloc/realloc of the unit under test
+ * (psMalloc & co. are macros over them) first draws one bit from the tape:
+ * 1 = this allocation fails.  The schedule is therefore symbolic under CBMC
+ * and replayable natively (CBMC's own --malloc-may-fail is not used). */
+#ifdef VF_FAULT_ALLOC
+static int vf_alloc_faults, vf_alloc_calls;
+static inline void *vf_malloc(size_t n)
+{
+    vf_alloc_calls++;
+    if (vf_bool())
+    {
+        vf_alloc_faults++;
+        return NULL;
+    }
+    return malloc(n);
+}
+static inline void *vf_calloc(size_t a, size_t b)
+{
+    vf_alloc_calls++;
+    if (vf_bool())
+    {
+        vf_alloc_faults++;
+        return NULL;
+    }
+    return calloc(a, b);
+}
+static inline void *vf_realloc(void *p, size_t n)
+{
+    vf_alloc_calls++;
+    if (vf_bool())
+    {
+        vf_alloc_faults++;
+        return NULL;
+    }
+    return realloc(p, n);
+}
+# define malloc vf_malloc
+# define calloc vf_calloc
+# define realloc vf_realloc
+#endif
+
 #endif /* VF_H */
